@@ -375,7 +375,7 @@ def gen_cases(ctx):
                                             engines=engine_tables(sub, prof)))
                         nD += 1
     # E. seeded random mix of every field (order of the tests, error-kind precedence)
-    nE = 10000 if quick else 120000
+    nE = 10000 if quick else 80000
     for _ in range(nE):
         n = rng.choice((0, 1, 2, 2, 3, 3, 3, 4, 4, 5))
         if rng.random() < 0.6:
@@ -414,6 +414,8 @@ WITNESSES = [
     ("mixedEngines", mkcase((0, 2, 4), 2, (0, 0, 1), cap=3, lm1=-1, quantis=0,
                             ee=(("engine0",), ("engine",), ("engine",)),
                             engines=(("engine", 0, 1, 7), ("engine0", 1, None, 8)))),
+    ("ensembleEnginesShort", mkcase((0, 2), 1, (0, 0), ee=(("engine",),), engines=(("engine", 1, None, 7),))),
+    ("ensembleWithoutEngine", mkcase((0, 2), 1, (0, 0), ee=((), ()), engines=(("engine", 1, None, 7),))),
     ("good", mkcase((0, 2, 4), 2, (0, 0, 1), cap=3, lm1=-1, quantis=0)),
 ]
 
